@@ -78,6 +78,10 @@ def run(ctx, w):
     # is trimmed to the bare view at the end of every feed_str call but never by feed()
     from rules import c06
     c06.role_limits(ctx, w, S, R, "K7")
+    from rules import c13
+    if T.ok:
+        c13.growth_flag_rule(ctx, w, S, R, T, "K8")
+    inband_resize_disabled(ctx, w, S, R, "K9")
 
 
 def c06_w9(ctx, w, S, up):
@@ -111,3 +115,40 @@ def c06_w9(ctx, w, S, up):
         ctx.check(b.edge_controls((blk, nz), pt[0]), "K6", shared.site_key(w, up, pt), "%s rotates/overwrites rows of the line vector for a range starting at row 0: what stays visible then depends on whether the gc ran since the last scroll" % up,
                   loc=w.stmt_loc(up, pt), sample={"site": shared.site_key(w, up, pt)})
     ctx.floor("K6", 2, "row overwrite sites")
+
+
+def inband_resize_disabled(ctx, w, S, R, rule):
+    """A resize in the middle of a feed_str call would see a scrollback that is only trimmed at the end of calls, i.e. a
+    state that depends on the chunking.  The executor may therefore reach the resize entry only under a flag that the
+    constructor sets to false and nothing ever writes."""
+    E = w.E
+    A = w.anchors
+    from rules import c19
+    ctx.rule(rule, "control functions cannot resize the terminal: every call of the resize entry reachable from the executor is guarded by a flag that is false in the constructor and has no other writer")
+    ctors = c19.constructor_of(w, S.term_ty)
+    if len(ctors) != 1:
+        ctx.missing_anchor(rule, "constructor")
+        return
+    cf, cpt, crv = ctors[0]
+    CT = w.terms(cf)
+    ctor_val = {nm: WD.strip_names(CT.operand(op, cpt)) for nm, op in zip(crv["field_names"], crv["ops"])}
+    reach = E.reachable_fns([A["execute"]])
+    n = 0
+    for fn in sorted(reach):
+        for cs in E.call_sites(fn, S.resize_fn):
+            n += 1
+            gs = [(WD.strip_names(c), v) for c, v in w.guards_of(fn, cs.point[0])]
+            ok = False
+            flag = None
+            for c, v in gs:
+                if c[0] == "load" and len(c[1]) == 2 and c[1][0] == "arg1" and v is True:
+                    flag = c[1][1]
+                    writers = [f2 for f2 in w.bodies if f2 != cf and any(("arg1", flag) in ps for ps in E.stmt_writes[f2].values()) and S._impl_of(f2) == S.term_ty]
+                    whole = [f2 for f2 in w.bodies if f2 != cf and S._impl_of(f2) == S.term_ty and any(("arg1",) in ps for ps in E.stmt_writes[f2].values())]
+                    if ctor_val.get(flag) == ("const", False) and not writers:
+                        ok = True
+            ctx.check(ok, rule, "%s:%s" % (fn, shared.site_key(w, fn, cs.point)),
+                      "%s can resize the terminal in the middle of a call (guards: %s; constructor value of the flag: %s): the scrollback seen by that resize depends on where the input was cut" %
+                      (fn, [(w.tstr(fn, c), v) for c, v in gs], w.tstr(cf, ctor_val.get(flag)) if flag else None), loc=w.site_loc(cs), sample={"fn": fn, "flag": flag})
+    if n == 0:
+        ctx.ok(rule, "unreachable", {"resize_entry_reachable_from_executor": False})
